@@ -31,46 +31,50 @@ namespace Mesa.Steps
     does not re-bind the name `step` on the instance — calls with any arguments, returning normally or leaving with an
     exception (a `TypeError` of the class chain, a `RuntimeError` raised by user code), assignments to `_user_step`.  Then the next `model.step(*args)` finds the wrapper in the instance `__dict__`, advances `steps` by
     exactly one, the wrapper stays in place, and `steps` equals the number of calls made so far. -/
-theorem C05_increments_exactly_once (h : Hier) (stopAt : Nat) (pre : Option Nat) (ops : List BOp)
+theorem C05_increments_exactly_once (h : Hier) (stopAt : Nat) (pre : Option Nat) (rz : Option Nat) (ops : List BOp)
     (hops : ∀ op ∈ ops, op.rebindsStep = false) (args : List Int) :
-    let o := (Obj.construct h stopAt pre).run ops
+    let o := (Obj.construct h stopAt pre rz).run ops
     (o.call args).obj.inst.steps = o.inst.steps + 1 ∧
     (o.call args).obj.dictStep = some .wrapper ∧
     o.inst.steps = (ops.filter (·.isCall)).length := by
-  have hc := construct_wrapped h stopAt pre
+  have hc := construct_wrapped h stopAt pre rz
   obtain ⟨h1, h2⟩ := run_keeps_wrapper _ hc.1 ops hops
   have := call_wrapped_steps _ h1 args
   exact ⟨this.1, this.2.1, by rw [h2, hc.2.1]; simp⟩
 
 /-- The increment happens before any user code: everything that runs during the call — the step bodies of the class
     chain, or the function the program supplied as `step` / `_user_step` — sees the already incremented counter. -/
-theorem C05_increment_before_user_code (h : Hier) (stopAt : Nat) (pre : Option Nat) (ops : List BOp)
+theorem C05_increment_before_user_code (h : Hier) (stopAt : Nat) (pre : Option Nat) (rz : Option Nat) (ops : List BOp)
     (hops : ∀ op ∈ ops, op.rebindsStep = false) (args : List Int) :
-    let o := (Obj.construct h stopAt pre).run ops
+    let o := (Obj.construct h stopAt pre rz).run ops
     (∀ e ∈ (o.call args).entries, e.steps = o.inst.steps + 1) ∧ (∀ c ∈ (o.call args).fns, c.steps = o.inst.steps + 1) := by
-  have hc := construct_wrapped h stopAt pre
+  have hc := construct_wrapped h stopAt pre rz
   obtain ⟨h1, _⟩ := run_keeps_wrapper _ hc.1 ops hops
   have := call_wrapped_steps _ h1 args
   exact ⟨this.2.2.2.1, this.2.2.2.2⟩
 
 /-- What the wrapper delegates to is what the lookup `self.step` found when `Model.__init__` ran: without an instance
-    attribute the class's own `step` — then the call is exactly `callStep` of the chain model below, whose theorems say
-    which bodies run —, and a function assigned before `super().__init__()` otherwise (called once, arguments unchanged,
+    attribute the class's own `step` — then the call is exactly `callStepR` of the chain model below (`callStep` when no class body
+    raises), whose theorems say which bodies run —, and a function assigned before `super().__init__()` otherwise (called once, arguments unchanged,
     no class body runs). -/
-theorem C05_wrapper_delegates_to_step_captured_at_init (h : Hier) (stopAt : Nat) (pre : Option Nat) (ops : List BOp)
+theorem C05_wrapper_delegates_to_step_captured_at_init (h : Hier) (stopAt : Nat) (pre : Option Nat) (rz : Option Nat)
+    (ops : List BOp)
     (h1 : ∀ op ∈ ops, op.rebindsStep = false) (h2 : ∀ op ∈ ops, ∀ f, op ≠ .setUser f) (args : List Int) :
-    let o := (Obj.construct h stopAt pre).run ops
-    (pre = none → (o.call args).entries = (callStep o.inst args).2.1 ∧ (o.call args).ok = (callStep o.inst args).2.2 ∧
-        (o.call args).obj.inst = (callStep o.inst args).1 ∧ (o.call args).fns = []) ∧
+    let o := (Obj.construct h stopAt pre rz).run ops
+    (pre = none → (o.call args).entries = (callStepR o.inst rz args).2.1 ∧ (o.call args).ok = (callStepR o.inst rz args).2.2 ∧
+        (o.call args).obj.inst = (callStepR o.inst rz args).1 ∧ (o.call args).fns = []) ∧
     (∀ f, pre = some f → (o.call args).entries = [] ∧ (o.call args).fns = [⟨f, o.inst.steps + 1, args⟩] ∧
         (o.call args).ok = !raisesFn f) := by
-  have hc := construct_wrapped h stopAt pre
+  have hc := construct_wrapped h stopAt pre rz
   obtain ⟨hw, _⟩ := run_keeps_wrapper _ hc.1 ops h1
   have hu := run_userStep_of_no_setUser _ hc.1 ops h1 h2
-  rw [hc.2.2] at hu
+  have hrz : ((Obj.construct h stopAt pre rz).run ops).raiser = rz := by rw [run_raiser, hc.2.2.2]
+  rw [hc.2.2.1] at hu
   refine ⟨fun hp => ?_, fun f hp => ?_⟩
   · subst hp
-    exact call_wrapped_chain _ hw hu args
+    have := call_wrapped_chain _ hw hu args
+    rw [hrz] at this
+    exact this
   · subst hp
     exact call_wrapped_fn _ hw f hu args
 
@@ -144,6 +148,43 @@ theorem C05_bodies_are_exactly_the_super_chain (i : Inst) (args : List Int) :
 example : (callStep (Inst.new [⟨true, true, true⟩, ⟨true, true, false⟩, ⟨true, false, true⟩] 9) [4]).2 = ([⟨0, 1, [4]⟩], false) := by decide
 example : ((callStep (Inst.new [⟨true, true, true⟩, ⟨true, true, false⟩, ⟨true, false, true⟩] 9) []).2.1.map (·.depth)) = [0, 1, 2] := by
   decide
+
+/-- **A class body that raises** (review 3, M17: `def step(self): …; raise …` in a class of the hierarchy, possibly between
+    two `super()` levels).  Compare a call on an instance of a class whose body at depth `r` raises (`callStepR`) with the
+    same call were that body not to raise (`callStep`): the counter is incremented once all the same, before any body; the
+    bodies that run are an initial segment of those that would have run; if the chain never reaches depth `r` nothing at all
+    differs; and if it does, exactly the bodies up to and including that one run — no body behind the raiser, although its
+    level may call `super().step()` — and the call does not return normally. -/
+theorem C05_raising_class_body_cuts_the_chain (i : Inst) (r : Nat) (args : List Int) :
+    (callStepR i (some r) args).1.steps = i.steps + 1 ∧ callStepR i none args = callStep i args ∧
+    (callStepR i (some r) args).2.1 <+: (callStep i args).2.1 ∧
+    (∀ e ∈ (callStepR i (some r) args).2.1, e.steps = i.steps + 1) ∧
+    ((∀ e ∈ (callStep i args).2.1, e.depth ≠ r) → callStepR i (some r) args = callStep i args) ∧
+    (∀ pre e post, (callStep i args).2.1 = pre ++ e :: post → e.depth = r → (∀ x ∈ pre, x.depth ≠ r) →
+      (callStepR i (some r) args).2.1 = pre ++ [e] ∧ (callStepR i (some r) args).2.2 = false) := by
+  have hpre : (callStepR i (some r) args).2.1 <+: (callStep i args).2.1 := cutAt_prefix _ _
+  refine ⟨rfl, rfl, hpre, fun e he => runChain_steps _ _ _ _ e (hpre.subset he), fun hno => ?_, fun pre e post hfull he hp => ?_⟩
+  · have hany : (runChain i.hier 0 args (i.steps + 1)).1.any (·.depth == r) = false := by
+      rw [List.any_eq_false]
+      intro e hin
+      simpa using hno e hin
+    simp [callStepR, callStep, cutAt, hany]
+  · have hfull' : (runChain i.hier 0 args (i.steps + 1)).1 = pre ++ e :: post := hfull
+    have hany : (runChain i.hier 0 args (i.steps + 1)).1.any (·.depth == r) = true := by
+      rw [hfull', List.any_eq_true]
+      exact ⟨e, by simp, by simpa using he⟩
+    have h1 : cutAt (some r) (runChain i.hier 0 args (i.steps + 1)) = (pre ++ [e], false) := by
+      simp only [cutAt, hany, if_true]
+      rw [hfull', takeThrough_split r pre e post he hp]
+    exact ⟨by show (cutAt (some r) _).1 = _; rw [h1], by show (cutAt (some r) _).2 = _; rw [h1]⟩
+
+/-- non-vacuity: three levels all calling super, the middle one raises: bodies 0 and 1 run, body 2 does not, the counter moved;
+    a raiser the chain never reaches (level 0 does not call super) changes nothing -/
+example : callStepR (Inst.new [⟨true, true, false⟩, ⟨true, true, false⟩, ⟨true, false, false⟩] 9) (some 1) [] =
+    ({ (Inst.new [⟨true, true, false⟩, ⟨true, true, false⟩, ⟨true, false, false⟩] 9) with steps := 1, execs := 2 },
+      [⟨0, 1, []⟩, ⟨1, 1, []⟩], false) ∧
+    callStepR (Inst.new [⟨true, false, false⟩, ⟨true, true, false⟩] 9) (some 1) [] =
+      callStep (Inst.new [⟨true, false, false⟩, ⟨true, true, false⟩] 9) [] := by decide
 
 /-- A call without arguments never raises, and if some level defines `step` the most derived
     such level runs first (inherited from an intermediate base class or overridden directly). -/
